@@ -110,7 +110,7 @@ def run(ctx):
     ents += [e for e in tie.glue_entries() if e[0] in ("T_op", "Phi_op", "E_op", "P_op", "R_op")]
     nok, nbad = tie.run(ctx, ents, 3 if quick else 40)
     # correspondence of the structural model
-    n = 100 if quick else 3000
+    n = 160 if quick else 4000
     terms, kept = [], []
     for i in range(n):
         if i % 4 == 3:
@@ -118,6 +118,17 @@ def run(ctx):
             p = prog.gen_program(ctx.rng, maxlen=5, kinds=["matrix", "shift", "shift", "scalar"], init_p=1.0,
                                  nmax_p=0.0, global_nmax_p=0.0)
             p["init_as_array"] = True
+        elif i % 5 in (1, 4):
+            # echo-focused stream: pulses and 1-D shifts of both signs only, so that pathways dephase far beyond the
+            # largest CUMULATED shift and come back to the centre (no reset / spoiler / cap in between)
+            for _ in range(6):
+                p = prog.gen_program(ctx.rng, maxlen=16, kinds=["matrix", "shift", "shift", "shift"], init_p=0.0, nmax_p=0.0, global_nmax_p=0.0)
+                if len(p["ops"]) >= 9:
+                    break
+            for o in p["ops"]:
+                if o["op"] == "shift":
+                    o["d"] = ctx.rng.choice([1, 2, 2, 3]) * ctx.rng.choice([1, -1])
+            p["init_as_array"] = False
         else:
             p = prog.gen_program(ctx.rng, maxlen=10 if quick else 16)
             p["init_as_array"] = ctx.rng.random() < 0.5
